@@ -218,6 +218,18 @@ def run(ctx):
             reads.add((method_pair.get(m, m), "''" if len(a) == 1 else ("sender" if a[1] == "Event::sender(ev)" else "?" + a[1][:40])))
     ctx.check(reads <= {("RoomCreate", "''"), ("RoomPowerLevels", "''"), ("RoomMember", "sender")}, "C09.subset", "C09.subset:auth_check", w.where(fn),
               bad_msg=f"auth_check reads {sorted(reads)}")
+    # the selection for an m.room.create event is empty: on the paths that take the create branch nothing is read from the state
+    create_reads, n_create = [], 0
+    for p in ps:
+        is_create = [t for a, t in p.conds if re.search(r"Event::event_type\(ev\).*RoomCreate|RoomCreate.*Event::event_type\(ev\)", D.show_atom(a))]
+        if is_create and all(is_create):
+            n_create += 1
+            if p.effects:
+                create_reads.append(sorted({e[0].rsplit("::", 1)[-1] for e in p.effects}))
+    ctx.floor("paths of auth_check through the m.room.create branch", n_create, 1)
+    ctx.check(not create_reads, "C09.subset", "C09.subset:auth_check:create-branch", w.where(fn),
+              bad_msg=f"authorising an m.room.create event reads the room state ({create_reads[:1]}): its auth-event selection is empty, so state entries outside the "
+                      f"selection change the outcome")
     fn = w.fn(EA + "check_room_create")
     ctx.check(not any("FetchStateExt" in M.callee_name(c) for _, c in M.calls(fn["body"])), "C09.subset", "C09.subset:check_room_create", w.where(fn),
               bad_msg="check_room_create reads room state")
